@@ -53,7 +53,10 @@ fn find(id: &str) -> Option<PropDef> {
 }
 
 fn make_ctx(p: &PropDef, tier: &str, shard: u64, shards: u64) -> Ctx {
-	let scratch = runner::scratch_root().join(format!("pdbv.{}.{}.{}", p.id, std::process::id(), shard));
+	// the tag of the driver process that started this shard keeps concurrent check runs (e.g. a
+	// background sweep) from removing each other's scratch directories
+	let tag = std::env::var("PDBV_RUN_TAG").unwrap_or_else(|_| "solo".to_string());
+	let scratch = runner::scratch_root().join(format!("pdbv.{}.{}.{}.{}", p.id, tag, std::process::id(), shard));
 	let _ = std::fs::remove_dir_all(&scratch);
 	std::fs::create_dir_all(&scratch).expect("scratch");
 	Ctx {
@@ -153,6 +156,7 @@ fn check(id: &str, tier: &str) -> i32 {
 			let out = tmp.join(format!("shard{tag}{i}.json"));
 			let child = Command::new(e)
 				.args(["shard", id, tier, &i.to_string(), &per_engine.to_string(), out.to_str().unwrap()])
+				.env("PDBV_RUN_TAG", format!("r{}", std::process::id()))
 				.stdin(Stdio::null())
 				.spawn()
 				.expect("spawn shard");
@@ -198,7 +202,7 @@ fn check(id: &str, tier: &str) -> i32 {
 	if let Ok(rd) = std::fs::read_dir(runner::scratch_root()) {
 		for e in rd.flatten() {
 			let n = e.file_name().to_string_lossy().to_string();
-			if n.starts_with(&format!("pdbv.{}.", id)) {
+			if n.starts_with(&format!("pdbv.{}.r{}.", id, std::process::id())) {
 				let _ = std::fs::remove_dir_all(e.path());
 			}
 		}
